@@ -1,4 +1,5 @@
 # C08 — semaphores conserve permits and release blocked acquirers (structural part; DESIGN.md §5 C08)
+import re
 from engine.core import AnalysisBroken, P, T, callee_of, callee_short, cond_atoms, loc_of, strip, forward, block_path, is_moved, walk
 from engine.kinds import (LockFlow, FactFlow, check_guarded, eval_tree, Unknown, return_set, first_outcome, loop_of,
                           precedes_on_all_paths)
@@ -237,6 +238,24 @@ def run(rep, tier):
                         "never notified (return at %s)" % (fn.qname, rets))
             else:
                 rep.ok("C08.R5", fn, "every path to the exit enters the wake loop")
+            # sliding semaphore: how far the limit moved says nothing about how many waiters became eligible (they
+            # wait for different upper limits, the queue is FIFO): the loop has to offer a wake-up to every queued
+            # waiter, i.e. its counter starts at cond_.size(l), unmodified
+            if field == "this->lower_limit_":
+                cvars = set()
+                for b in loop:
+                    blk = fn.blocks[b]
+                    if blk.cond is not None and any(t not in loop for _, t, _ in blk.succ):
+                        for m_ in re.finditer(r"\b([A-Za-z_]\w*)\b", cond_atoms(blk.cond)[0]):
+                            cvars.add(m_.group(1))
+                decls = [(b, i, e) for b, i, e in fn.all_events() if e.get("k") == "decl" and e.get("var") in cvars and e.get("init") is not None]
+                full = [e for b, i, e in decls if re.match(r"^this->cond_\.size\(l\)$", T(strip(e["init"])))]
+                if decls and len(full) == len(decls) and not any(e.get("k") == "write" and P(e["lhs"]) in cvars and e.get("op") not in ("--", "++") for _, _, e in fn.all_events()):
+                    rep.ok("C08.R5", fn, "the wake loop is bounded by the number of queued waiters (cond_.size(l))")
+                else:
+                    rep.bad("C08.R5", fn, loc_of(decls[0][2]) if decls else fn.loc, "wake-count", "sliding_semaphore::signal does not offer a wake-up to every queued waiter "
+                            "(loop counter initialised with %s): a waiter whose upper limit is now within the window stays suspended"
+                            % [T(strip(e["init"])) for _, _, e in decls])
             if bad_exit:
                 rep.bad("C08.R5", fn, loc_of(nev), "wake-loop-exit", "wake loop can be left on a condition other than "
                         "no-waiters / no-permits / count reached: %s" % bad_exit)
